@@ -239,7 +239,8 @@ def _ack(chk, repo, folder):
         fin = [fr_.cfg.node_of(s_) for s_ in attr_stores(r.node, "_retransmitting") if src(s_.value) == "False"]
         chk.check(bool(fin) and all(f_ in fr_.cfg.reach_from(lp) for f_ in fin), "R5", f"{CL}:{C}._retransmit | retransmission flag cleared afterwards", r.loc(), "")
     pos = [s_ for s_ in attr_stores(r.node, "pos")]
-    chk.check(len(pos) == 1 and fr_.is_form(pos[0].value, "self.pos - len(block) * 7", subst=False), "R5", f"{CL}:{C}._retransmit | position rolled back by the resent bytes", r.loc(),
+    chk.check(len(pos) == 1 and ((isinstance(pos[0], ast.Assign) and fr_.is_form(pos[0].value, "self.pos - len(block) * 7", subst=False)) or
+                                 (isinstance(pos[0], ast.AugAssign) and isinstance(pos[0].op, ast.Sub) and fr_.is_form(pos[0].value, "len(block) * 7", subst=False))), "R5", f"{CL}:{C}._retransmit | position rolled back by the resent bytes", r.loc(),
               f"{[src(p) for p in pos]}")
 
 
